@@ -7,9 +7,11 @@ import (
 	"unique"
 
 	"github.com/samber/lo"
+	corev1 "k8s.io/api/core/v1"
 	resourcev1 "k8s.io/api/resource/v1"
 	"k8s.io/apimachinery/pkg/api/resource"
 	metav1 "k8s.io/apimachinery/pkg/apis/meta/v1"
+	"k8s.io/apimachinery/pkg/types"
 	"k8s.io/apimachinery/pkg/util/sets"
 	"sigs.k8s.io/controller-runtime/pkg/client/interceptor"
 
@@ -78,12 +80,18 @@ type aNC struct {
 	its      []string
 	itObjs   map[string]*cloudprovider.InstanceType
 	existing bool
+	reqs     scheduling.Requirements
 }
 
-func (n *aNC) ID() dra.NodeClaimID                    { return unique.Make(n.id) }
-func (n *aNC) NodeName() string                       { return n.nodeName }
-func (n *aNC) NodePoolID() dra.NodePoolID             { return unique.Make("pool") }
-func (n *aNC) Requirements() scheduling.Requirements  { return scheduling.NewRequirements() }
+func (n *aNC) ID() dra.NodeClaimID        { return unique.Make(n.id) }
+func (n *aNC) NodeName() string           { return n.nodeName }
+func (n *aNC) NodePoolID() dra.NodePoolID { return unique.Make("pool") }
+func (n *aNC) Requirements() scheduling.Requirements {
+	if n.reqs == nil {
+		return scheduling.NewRequirements()
+	}
+	return n.reqs
+}
 func (n *aNC) InstanceTypes() []dra.InstanceTypeID {
 	return lo.Map(n.its, func(s string, _ int) dra.InstanceTypeID { return unique.Make(s) })
 }
@@ -110,12 +118,25 @@ type acase struct {
 
 func qty(v int64) resource.Quantity { return *resource.NewQuantity(v, resource.DecimalSI) }
 
-func runA(c *kit.Ctx, r *kit.Rand, idx int) {
-	ctx := context.Background()
-	cl := kit.NewClient(interceptor.Funcs{})
-	for _, dc := range []struct{ name, driver string }{{"excl", exclDriver}, {"cap", capDriver}, {"part", partDriver}, {"gpu", test.GPUDriver}} {
-		kit.Apply(ctx, cl, test.DeviceClassWithSelector(dc.name, dc.driver))
-	}
+// draWorld is one generated universe of published ResourceSlices and instance types with template devices.
+type draWorld struct {
+	apiSlices                                    []*resourcev1.ResourceSlice
+	inCluster                                    []dra.ResourceSlice
+	allITs                                       map[string]*cloudprovider.InstanceType
+	itNames, udevs, exclNames                    []string
+	devs                                         map[string]devInfo
+	capTotals, tbudget                           map[string]int64
+	capTotal, counterTotal, tmplCap, tmplCounter int64
+	partCost                                     []int64
+	zoned, bare, incomplete, generations         bool
+}
+
+func dkey(id cloudprovider.DeviceID, tmpl bool) string {
+	return fmt.Sprintf("%s|%v", id.String(), tmpl)
+}
+
+func newDraWorld(r *kit.Rand) *draWorld {
+	w := &draWorld{}
 	// ---- in-cluster slices
 	nExcl := r.Range(1, 3)
 	exclNames := lo.Times(nExcl, func(i int) string { return fmt.Sprintf("e%d", i) })
@@ -139,7 +160,40 @@ func runA(c *kit.Ctx, r *kit.Rand, idx int) {
 	nodeLocal := test.ResourceSlice(resourcev1.ResourceSlice{ObjectMeta: metav1.ObjectMeta{Name: "node3-pool"}, Spec: resourcev1.ResourceSliceSpec{
 		Driver: exclDriver, NodeName: lo.ToPtr("node3"), Pool: resourcev1.ResourcePool{Name: "node3-pool", Generation: 1, ResourceSliceCount: 1},
 		Devices: []resourcev1.Device{{Name: "l0"}}}})
-	apiSlices := []*resourcev1.ResourceSlice{test.ClusterWideSlice("excl-pool", exclDriver, exclNames...), capSlice, partCounters, partDevices, nodeLocal}
+	exclSlice := test.ClusterWideSlice("excl-pool", exclDriver, exclNames...)
+	for i := range exclSlice.Spec.Devices { // attributes for match / distinct constraints
+		exclSlice.Spec.Devices[i].Attributes = map[resourcev1.QualifiedName]resourcev1.DeviceAttribute{
+			"excl.example.com/rack": test.StringAttribute(fmt.Sprintf("rack%d", i%2)), "excl.example.com/model": test.StringAttribute("m1")}
+	}
+	apiSlices := []*resourcev1.ResourceSlice{exclSlice, capSlice, partCounters, partDevices, nodeLocal}
+	// a zoned pool: its devices carry topology requirements that narrow the NodeClaim
+	w.zoned = r.Chance(1, 2)
+	if w.zoned {
+		apiSlices = append(apiSlices, test.ZonedSlice("zoned-pool", exclDriver, kit.Pick(r, []string{"test-zone-1", "test-zone-2"}), "zd0", "zd1"))
+	}
+	// a multi-allocatable device without capacity dimensions, an incomplete pool (one of two slices published), and a
+	// pool whose older generation is superseded
+	if r.Chance(1, 3) {
+		apiSlices = append(apiSlices, test.ResourceSlice(resourcev1.ResourceSlice{ObjectMeta: metav1.ObjectMeta{Name: "bare-pool"}, Spec: resourcev1.ResourceSliceSpec{
+			Driver: capDriver, AllNodes: lo.ToPtr(true), Pool: resourcev1.ResourcePool{Name: "bare-pool", Generation: 1, ResourceSliceCount: 1},
+			Devices: []resourcev1.Device{{Name: "bare0", AllowMultipleAllocations: lo.ToPtr(true)}}}}))
+		w.bare = true
+	}
+	if r.Chance(1, 3) {
+		apiSlices = append(apiSlices, test.ResourceSlice(resourcev1.ResourceSlice{ObjectMeta: metav1.ObjectMeta{Name: "half-pool"}, Spec: resourcev1.ResourceSliceSpec{
+			Driver: exclDriver, AllNodes: lo.ToPtr(true), Pool: resourcev1.ResourcePool{Name: "half-pool", Generation: 1, ResourceSliceCount: 2},
+			Devices: []resourcev1.Device{{Name: "h0"}}}}))
+		w.incomplete = true
+	}
+	if r.Chance(1, 3) {
+		for gen, dev := range map[int64]string{1: "old0", 2: "new0"} {
+			apiSlices = append(apiSlices, test.ResourceSlice(resourcev1.ResourceSlice{ObjectMeta: metav1.ObjectMeta{Name: fmt.Sprintf("gen-pool-%d", gen)}, Spec: resourcev1.ResourceSliceSpec{
+				Driver: exclDriver, AllNodes: lo.ToPtr(true), Pool: resourcev1.ResourcePool{Name: "gen-pool", Generation: gen, ResourceSliceCount: 1},
+				Devices: []resourcev1.Device{{Name: dev}}}}))
+		}
+		w.generations = true
+	}
+	sort.Slice(apiSlices, func(i, j int) bool { return apiSlices[i].Name < apiSlices[j].Name })
 	inCluster := lo.Map(apiSlices, func(s *resourcev1.ResourceSlice, _ int) dra.ResourceSlice { return dra.NewAPIServerSlice(s) })
 
 	// ---- instance types with template devices
@@ -150,19 +204,18 @@ func runA(c *kit.Ctx, r *kit.Rand, idx int) {
 	tmplCap := int64(r.Range(4, 8))
 	tmplCounter := int64(r.Range(2, 5))
 	allITs := map[string]*cloudprovider.InstanceType{
-		"g1": fake.GPUInstanceType("g1", 1),
-		"g2": fake.GPUInstanceType("g2", 2),
-		"cg": fake.CapacityGPUInstanceType("cg", fmt.Sprint(tmplCap), gpuPolicy),
-		"pg": fake.PartitionableGPUInstanceType("pg", "cs", map[string]resource.Quantity{"slices": qty(tmplCounter)}, 3, map[string]resource.Quantity{"slices": qty(2)}),
+		"g1":    fake.GPUInstanceType("g1", 1),
+		"g2":    fake.GPUInstanceType("g2", 2),
+		"cg":    fake.CapacityGPUInstanceType("cg", fmt.Sprint(tmplCap), gpuPolicy),
+		"pg":    fake.PartitionableGPUInstanceType("pg", "cs", map[string]resource.Quantity{"slices": qty(tmplCounter)}, 3, map[string]resource.Quantity{"slices": qty(2)}),
 		"plain": fake.NewInstanceType("plain"),
 	}
 	itNames := []string{"g1", "g2", "cg", "pg", "plain"}
 
 	// ---- device table, budgets
-	devs := map[string]devInfo{} // key: name + "|" + tmpl
-	dkey := func(id cloudprovider.DeviceID, tmpl bool) string { return fmt.Sprintf("%s|%v", id.String(), tmpl) }
-	capTotals := map[string]int64{}  // in-cluster capacity key -> total
-	tbudget := map[string]int64{}    // template keys -> total
+	devs := map[string]devInfo{}    // key: name + "|" + tmpl
+	capTotals := map[string]int64{} // in-cluster capacity key -> total
+	tbudget := map[string]int64{}   // template keys -> total
 	var udevs []string
 	for _, s := range inCluster {
 		for _, d := range s.Devices() {
@@ -205,6 +258,27 @@ func runA(c *kit.Ctx, r *kit.Rand, idx int) {
 	}
 	sort.Strings(udevs)
 
+	w.apiSlices, w.inCluster, w.allITs, w.itNames, w.udevs, w.exclNames = apiSlices, inCluster, allITs, itNames, udevs, exclNames
+	w.devs, w.capTotals, w.tbudget = devs, capTotals, tbudget
+	w.capTotal, w.counterTotal, w.tmplCap, w.tmplCounter, w.partCost = capTotal, counterTotal, tmplCap, tmplCounter, partCost
+	return w
+}
+
+func runA(c *kit.Ctx, r *kit.Rand, idx int) {
+	ctx := context.Background()
+	cl := kit.NewClient(interceptor.Funcs{})
+	for _, dc := range []struct{ name, driver string }{{"excl", exclDriver}, {"cap", capDriver}, {"part", partDriver}, {"gpu", test.GPUDriver}} {
+		kit.Apply(ctx, cl, test.DeviceClassWithSelector(dc.name, dc.driver))
+	}
+	w := newDraWorld(r)
+	inCluster, allITs, itNames, udevs, exclNames := w.inCluster, w.allITs, w.itNames, w.udevs, w.exclNames
+	devs, capTotals, tbudget := w.devs, w.capTotals, w.tbudget
+	capTotal, counterTotal, tmplCap, tmplCounter, partCost := w.capTotal, w.counterTotal, w.tmplCap, w.tmplCounter, w.partCost
+	for flag, on := range map[string]bool{"zoned-pool": w.zoned, "multi-alloc-device-without-capacity": w.bare, "incomplete-pool": w.incomplete, "superseded-pool-generation": w.generations} {
+		if on {
+			c.Count("A:setup:" + flag)
+		}
+	}
 	// ---- state already on the API server
 	state := dra.AllocatedDeviceState{ExclusiveDevices: sets.New[cloudprovider.DeviceID](), ConsumedCapacity: map[cloudprovider.DeviceID]map[resourcev1.QualifiedName]resource.Quantity{}}
 	var pre []string
@@ -228,7 +302,26 @@ func runA(c *kit.Ctx, r *kit.Rand, idx int) {
 		c.Count("A:setup:partition-preallocated")
 	}
 	poolITs := lo.Map(itNames, func(n string, _ int) *cloudprovider.InstanceType { return allITs[n] })
-	alloc := dra.NewAllocator(inCluster, state, dra.BuildAttributeBindings(map[string][]*cloudprovider.InstanceType{"pool": poolITs}), cl, nil)
+	var committed []*resourcev1.ResourceClaim
+	var preClaim, migrating *resourcev1.ResourceClaim
+	if state.ExclusiveDevices.Len() > 0 {
+		id := state.ExclusiveDevices.UnsortedList()[0]
+		preClaim = test.AllocatedClusterWideClaim("in-cluster-claim", id.Pool.Value(), id.Driver.Value(), id.Device.Value())
+		if r.Bool() { // the allocation pins the claim to a zone
+			preClaim.Status.Allocation.NodeSelector = &corev1.NodeSelector{NodeSelectorTerms: []corev1.NodeSelectorTerm{{MatchExpressions: []corev1.NodeSelectorRequirement{
+				{Key: corev1.LabelTopologyZone, Operator: corev1.NodeSelectorOpIn, Values: []string{kit.Pick(r, []string{"test-zone-1", "test-zone-2"})}}}}}}
+		}
+	}
+	deleting := sets.New[types.UID]()
+	if r.Chance(1, 3) { // the provisioner has freed this device already (it is not in the preallocated set)
+		dev := kit.Pick(r, exclNames)
+		if !state.ExclusiveDevices.Has(cloudprovider.DeviceID{Driver: unique.Make(exclDriver), Pool: unique.Make("excl-pool"), Device: unique.Make(dev)}) {
+			deleting.Insert("deleting-pod")
+			migrating = test.AllocatedClusterWideClaim("migrating-claim", "excl-pool", exclDriver, dev, resourcev1.ResourceClaimConsumerReference{Resource: "pods", Name: "old", UID: "deleting-pod"})
+			migrating.Spec.Devices.Requests = []resourcev1.DeviceRequest{test.ExactDeviceRequest("req", "excl", 1)}
+		}
+	}
+	alloc := dra.NewAllocator(inCluster, state, dra.BuildAttributeBindings(map[string][]*cloudprovider.InstanceType{"pool": poolITs}), cl, deleting)
 	at := alloc.VerifC17Tracker()
 	rem0 := at.VerifC17Budgets().RemainingCounters
 	capb := map[string]int64{}
@@ -244,7 +337,13 @@ func runA(c *kit.Ctx, r *kit.Rand, idx int) {
 		if len(its) > 3 {
 			its = its[:3]
 		}
-		ncs = append(ncs, &aNC{id: fmt.Sprintf("n%d", i+1), its: its, itObjs: allITs})
+		nc := &aNC{id: fmt.Sprintf("n%d", i+1), its: its, itObjs: allITs}
+		if r.Chance(1, 3) { // the NodeClaim is already narrowed to zones
+			zs := subset(r, []string{"test-zone-1", "test-zone-2", "test-zone-3"}, 1)
+			nc.reqs = scheduling.NewRequirements(scheduling.NewRequirement(corev1.LabelTopologyZone, corev1.NodeSelectorOpIn, zs...))
+			c.Count("A:setup:nodeclaim-with-zone-requirement")
+		}
+		ncs = append(ncs, nc)
 	}
 	ncs = append(ncs, &aNC{id: "node3-provider-id", nodeName: "node3", its: []string{"plain"}, itObjs: allITs, existing: true})
 	uncs := lo.Map(ncs, func(n *aNC, _ int) string { return n.id })
@@ -310,7 +409,7 @@ func runA(c *kit.Ctx, r *kit.Rand, idx int) {
 		var jreq []string
 		for q, m := 0, r.Range(1, 2); q < m; q++ {
 			name := fmt.Sprintf("r%d", q)
-			switch r.Intn(8) {
+			switch r.Intn(14) {
 			case 0, 1:
 				cls, cnt := kit.Pick(r, []string{"excl", "gpu", "part"}), int64(r.Range(1, 2))
 				reqs = append(reqs, test.ExactDeviceRequest(name, cls, cnt))
@@ -323,12 +422,39 @@ func runA(c *kit.Ctx, r *kit.Rand, idx int) {
 				reqs = append(reqs, test.ExactDeviceRequest(name, "cap", 1)) // no capacity request: default or whole device
 				jreq = append(jreq, "exact cap (no capacity request)")
 			case 5:
-				cls := kit.Pick(r, []string{"part", "excl"})
+				cls := kit.Pick(r, []string{"part", "excl", "gpu", "cap"})
 				reqs = append(reqs, test.AllDeviceRequest(name, cls))
 				jreq = append(jreq, "all "+cls)
+				c.Count("A:request:all-mode-" + cls)
 			case 6:
 				reqs = append(reqs, test.FirstAvailableDeviceRequest(name, test.DeviceSubRequest("a", "gpu", 1), test.DeviceSubRequest("b", kit.Pick(r, []string{"excl", "part"}), 1)))
 				jreq = append(jreq, "first-available gpu | in-cluster")
+			case 7: // a capacity dimension the device does not publish
+				reqs = append(reqs, test.ExactDeviceRequestWithCapacity(name, kit.Pick(r, []string{"cap", "gpu"}), 1, map[resourcev1.QualifiedName]resource.Quantity{"cap.example.com/bandwidth": qty(1)}))
+				jreq = append(jreq, "exact with unknown capacity dimension")
+				c.Count("A:request:unknown-capacity-dimension")
+			case 8: // first-available whose preferred alternative is an All-mode sub-request
+				reqs = append(reqs, test.FirstAvailableDeviceRequest(name,
+					resourcev1.DeviceSubRequest{Name: "a", DeviceClassName: kit.Pick(r, []string{"part", "gpu"}), AllocationMode: resourcev1.DeviceAllocationModeAll},
+					test.DeviceSubRequest("b", "excl", 1)))
+				jreq = append(jreq, "first-available all(part|gpu) | excl")
+				c.Count("A:request:first-available-with-all-mode")
+			case 9: // request-level CEL selector, sometimes one that fails at runtime (attribute not published)
+				req := test.ExactDeviceRequest(name, "excl", 1)
+				expr := `device.attributes["excl.example.com"].rack == "rack0"`
+				if r.Chance(1, 3) {
+					expr = `device.attributes["nope.example.com"].x == "y"`
+					c.Count("A:request:selector-runtime-error")
+				} else {
+					c.Count("A:request:selector")
+				}
+				req.Exactly.Selectors = []resourcev1.DeviceSelector{{CEL: &resourcev1.CELDeviceSelector{Expression: expr}}}
+				reqs = append(reqs, req)
+				jreq = append(jreq, "exact excl where "+expr)
+			case 10:
+				reqs = append(reqs, test.ExactDeviceRequest(name, "ghost", 1))
+				jreq = append(jreq, "exact of a DeviceClass that does not exist")
+				c.Count("A:request:missing-device-class")
 			default:
 				reqs = append(reqs, test.ExactDeviceRequest(name, "part", 1))
 				jreq = append(jreq, "exact part x1")
@@ -336,9 +462,47 @@ func runA(c *kit.Ctx, r *kit.Rand, idx int) {
 		}
 		claim := test.ResourceClaimForRequests(fmt.Sprintf("claim%d", claimNo), reqs...)
 		claim.Namespace = "default"
+		if len(reqs) == 2 && reqs[0].Exactly != nil && reqs[1].Exactly != nil && r.Chance(1, 3) {
+			if r.Bool() {
+				claim.Spec.Devices.Constraints = []resourcev1.DeviceConstraint{test.MatchAttributeConstraint("excl.example.com/rack", "r0", "r1")}
+				jreq = append(jreq, "match attribute rack")
+				c.Count("A:claim:match-attribute-constraint")
+			} else {
+				claim.Spec.Devices.Constraints = []resourcev1.DeviceConstraint{{Requests: []string{"r0", "r1"}, DistinctAttribute: lo.ToPtr(resourcev1.FullyQualifiedName("excl.example.com/rack"))}}
+				jreq = append(jreq, "distinct attribute rack")
+				c.Count("A:claim:distinct-attribute-constraint")
+			}
+		}
+		claims := []*resourcev1.ResourceClaim{claim}
+		switch r.Intn(10) {
+		case 0: // a claim an earlier pod of this pass already allocated: on its own NodeClaim or on another one
+			if len(committed) > 0 {
+				old := kit.Pick(r, committed)
+				claims = append([]*resourcev1.ResourceClaim{old}, claims...)
+				jreq = append(jreq, "+ already allocated in this pass: "+old.Name)
+				c.Count("A:claims:reuses-claim-allocated-in-this-pass")
+			}
+		case 1: // a claim allocated on the API server (its device is in the preallocated set)
+			if preClaim != nil {
+				claims = append([]*resourcev1.ResourceClaim{preClaim}, claims...)
+				jreq = append(jreq, "+ allocated in-cluster: "+preClaim.Name)
+				c.Count("A:claims:with-claim-allocated-in-cluster")
+			}
+		case 2: // a claim allocated in-cluster whose only consumers are pods that are being deleted: allocated afresh
+			if migrating != nil {
+				claims = append([]*resourcev1.ResourceClaim{migrating}, claims...)
+				jreq = append(jreq, "+ allocated in-cluster, reserved only by deleting pods: "+migrating.Name)
+				c.Count("A:claims:reserved-only-by-deleting-pods")
+				migrating = nil
+			}
+		case 3:
+			claims = nil
+			jreq = []string{"no claims"}
+			c.Count("A:claims:none")
+		}
 		var res *dra.AllocationResult
 		var err error
-		p, msg := kit.Recover(func() { res, err = alloc.Allocate(ctx, n, []*resourcev1.ResourceClaim{claim}) })
+		p, msg := kit.Recover(func() { res, err = alloc.Allocate(ctx, n, claims) })
 		if p {
 			c.Fail(c.NextID(), "panic in Allocate: "+msg, "", map[string]any{"ops": jops, "claim": jreq})
 			c.Count("A:allocate:panic")
@@ -399,6 +563,7 @@ func runA(c *kit.Ctx, r *kit.Rand, idx int) {
 			c.Count("A:commit:panic")
 			break
 		}
+		committed = append(committed, claims...)
 		gops = append(gops, "("+gop+")")
 		gobs = append(gobs, observe("DUnit"))
 		jops = append(jops, fmt.Sprintf("allocate+commit %s %v on %s%v -> its %v", claim.Name, jreq, n.id, n.its, lo.Map(res.InstanceTypes, func(i dra.InstanceTypeID, _ int) string { return i.Value() })))
@@ -439,27 +604,11 @@ func runA(c *kit.Ctx, r *kit.Rand, idx int) {
 		gKVs(rem0), gKVs(capb), gKVs(tbudget), kit.GList(gops), kit.GList(gobs)), acase{"dra-allocator", setup, jops, failures, nil}, key)
 
 	// ---- final-state oracle over the claim allocation metadata
-	var grecs []string
-	var jrecs []map[string]any
+	var metas []claimMeta
 	for claimID, meta := range alloc.ResourceClaimAllocationMetadata() {
-		for it, results := range meta.Devices {
-			for _, dr := range results {
-				info := devs[dkey(dr.DeviceID.DeviceID, dr.DeviceID.Template)]
-				uses := map[string]int64{}
-				for k, v := range info.counters {
-					uses[k] += v
-				}
-				for dim, q := range dr.ConsumedCapacity {
-					uses[dra.VerifC17CapacityKey(dr.DeviceID, string(dim))] += q.Value()
-				}
-				grecs = append(grecs, fmt.Sprintf("(mkRec %s %s %s %s %s %s %s)", kit.GStr(claimID.Value().Name), kit.GStr(meta.NodeClaimID.Value()), kit.GStr(it.Value()),
-					kit.GStr(dr.DeviceID.DeviceID.String()), kit.GBool(dr.DeviceID.Template), kit.GBool(info.excl), gKVs(uses)))
-				jrecs = append(jrecs, map[string]any{"claim": claimID.Value().Name, "nodeclaim": meta.NodeClaimID.Value(), "instance_type": it.Value(),
-					"device": dr.DeviceID.String(), "exclusive": info.excl, "uses": uses})
-			}
-		}
+		metas = append(metas, claimMeta{claimID.Value().Name, meta})
 	}
-	sort.Strings(grecs)
+	grecs, jrecs := finalRecords(w, metas)
 	budgets := lo.Assign(map[string]int64{}, rem0, capb)
 	c.Count(fmt.Sprintf("A:final:records:%d", lo.Min([]int{len(grecs) / 3 * 3, 12})))
 	c.AddCase(fmt.Sprintf("CaseF %s %s %s %s", kit.GStrs(pre), gKVs(budgets), gKVs(tbudget), kit.GList(grecs)), acase{"dra-final-state", setup, jops, failures, jrecs}, "")
@@ -474,10 +623,12 @@ func runB(c *kit.Ctx, r *kit.Rand, idx int) {
 	at := dra.NewAllocationTracker(dra.AllocatedDeviceState{ExclusiveDevices: sets.New[cloudprovider.DeviceID]()})
 	rem0 := map[string]int64{"drv|parts|cs|c1": int64(r.Range(2, 8)), "drv|parts|cs|c2": int64(r.Range(2, 8))}
 	dra.VerifC17SetRemainingCounters(at, "drv", "parts", "cs", map[string]int64{"c1": rem0["drv|parts|cs|c1"], "c2": rem0["drv|parts|cs|c2"]})
+	rem0["drv|parts2|cs|d1"] = int64(r.Range(2, 8)) // a second pool
+	dra.VerifC17SetRemainingCounters(at, "drv", "parts2", "cs", map[string]int64{"d1": rem0["drv|parts2|cs|d1"]})
 	shared := dra.DeviceID{DeviceID: cloudprovider.DeviceID{Driver: unique.Make("drv"), Pool: unique.Make("caps"), Device: unique.Make("s0")}}
 	capKey := dra.VerifC17CapacityKey(shared, "mem")
 	capb := map[string]int64{capKey: int64(r.Range(3, 9))}
-	ks := []string{capKey, "drv|parts|cs|c1", "drv|parts|cs|c2"}
+	ks := []string{capKey, "drv|parts|cs|c1", "drv|parts|cs|c2", "drv|parts2|cs|d1"}
 	udevs := []string{shared.DeviceID.String()}
 	observe := func() string {
 		var bits []string
@@ -513,6 +664,24 @@ func runB(c *kit.Ctx, r *kit.Rand, idx int) {
 						cnt[it][k] = v
 						cuses[it] = append(cuses[it], dra.VerifC17CounterUse{Driver: "drv", Pool: "parts", Set: "cs", Counter: cn, Value: v})
 					}
+				}
+				if left := b.RemainingCounters["drv|parts2|cs|d1"]; left > 0 && r.Chance(1, 3) {
+					v := int64(r.Range(1, int(left)))
+					if cnt[it] == nil {
+						cnt[it] = map[string]int64{}
+					}
+					cnt[it]["drv|parts2|cs|d1"] = v
+					cuses[it] = append(cuses[it], dra.VerifC17CounterUse{Driver: "drv", Pool: "parts2", Set: "cs", Counter: "d1", Value: v})
+					c.Count("B:commit:second-pool")
+				}
+				if r.Chance(1, 8) { // consumption the tracker keeps no budget for: unknown counter, counter set or pool
+					u := kit.Pick(r, []dra.VerifC17CounterUse{{Driver: "drv", Pool: "parts", Set: "cs", Counter: "cX", Value: 1}, {Driver: "drv", Pool: "parts", Set: "csX", Counter: "c1", Value: 1}, {Driver: "drv", Pool: "ghost", Set: "cs", Counter: "c1", Value: 1}})
+					if cnt[it] == nil {
+						cnt[it] = map[string]int64{}
+					}
+					cnt[it][fmt.Sprintf("%s|%s|%s|%s", u.Driver, u.Pool, u.Set, u.Counter)] = u.Value
+					cuses[it] = append(cuses[it], u)
+					c.Count("B:commit:counter-without-tracked-budget")
 				}
 				if left := capb[capKey] - b.InflightCapacity[capKey]; left > 0 && r.Chance(2, 3) {
 					v := int64(r.Range(1, int(left)))
@@ -554,7 +723,7 @@ func runB(c *kit.Ctx, r *kit.Rand, idx int) {
 func runP(c *kit.Ctx, r *kit.Rand, idx int) {
 	total := int64(r.Range(1, 16))
 	var req *int64
-	if r.Chance(4, 5) {
+	if r.Chance(2, 3) {
 		v := int64(r.Range(0, 18))
 		req = &v
 	}
